@@ -12,6 +12,7 @@ CLAIMS = {
  "C08": "tls_state_transition's two match tables are regenerated from the source and proved equal, cell by cell (25 states x 2 directions x all message kinds, all alert severities/codes via an abstraction lemma), to a specification built from the documented flows as paths plus the precedence rules; lifted to all finite message sequences by induction; every cell is also run on the real function (exhaustive over the abstract domain).",
  "C17": "The 18 newtype_enum! tables are regenerated from the source and proved equal (as finite maps) to a frozen IANA table; Display/Debug text is characterised for every integer by a general lemma on first-match lookup; SignatureScheme bit-splitting proved for all 16-bit values; key_bits proved for every named curve and every unregistered group; all of it also run exhaustively against the implementation.",
  "C12": "The compiled registry is dumped completely (all 65536 ids, four lookup routes, iteration order, derived sizes) from the implementation built from the current tree and becomes the Coq model; it is proved equal to scripts/tls-ciphersuites.txt (regenerated) for every id, to contain a frozen copy of today's IANA table, to have agreeing routes, unique names with an exact from_name for every string, consistent sizes and name-token rules; each obligation is re-checked by the kernel on every run.",
+ "C07": "TlsRecordsParser is modelled as init/step over the record-content model; proved: the k-way split theorem by induction over fragments (any cut points, any k, buffer = concatenation so far), the three refusals leave the state unchanged, the 10 MiB buffer bound as an invariant over all operation sequences, idle = fresh as a bisimulation up to the unobservable stale buffer; the debug assertion's absence and both limits are re-read from the source each run; histories (all 2-way cuts, random k-way splits, foreign types, nocopy, reset, reuse, oversize) are run on the real parser with slice regions classified through the verification hook.",
 }
 def chk(pid):
     return {"property_id": pid, "quick_cmd": "./check %s --tier quick" % pid, "thorough_cmd": "./check %s --tier thorough" % pid,
